@@ -1333,6 +1333,62 @@ func gatedTwoCompletionsWhilePumpBusy() []int64 {
 	return []int64{0, b2i(okA), b2i(okB)}
 }
 
+// scenario 29 (C07): a request times out and, while the pump is inside the application's cancel handler, the connection
+// drops (and later comes back).  The disconnection must be processed (Pause returns), and the endpoint must work afterwards.
+func gatedDisconnectDuringTimeoutHandling() []int64 {
+	installIDGen()
+	fake := fakews.NewClient()
+	disp := ocppj.NewDefaultClientDispatcher(ocppj.NewFIFOClientQueue(0))
+	disp.SetTimeout(time.Hour)
+	cl := ocppj.NewClient("cp1", fake, disp, nil, core16.Profile)
+	cl.SetResponseHandler(func(r ocpp.Response, id string) {})
+	cl.SetErrorHandler(func(e *ocpp.Error, d interface{}) {})
+	cl.SetRequestHandler(func(r ocpp.Request, id, action string) {})
+	entered := make(chan struct{}, 4)
+	release := make(chan struct{})
+	var once sync.Once
+	cl.SetOnRequestCanceled(func(id string, r ocpp.Request, e *ocpp.Error) {
+		first := false
+		once.Do(func() { first = true })
+		if first {
+			entered <- struct{}{}
+			<-release
+		}
+	})
+	if err := cl.Start("ws://fake"); err != nil {
+		return []int64{-2}
+	}
+	setNextID("601")
+	_ = cl.SendRequest(core16.NewDataTransferRequest("v1"))
+	if !waitFor(2*time.Second, clientWrote(fake, 601)) {
+		return []int64{-8}
+	}
+	disp.VerifFireTimer() // the request times out
+	select {
+	case <-entered: // the pump has taken the expiry and sits in the cancel handler
+	case <-time.After(2 * time.Second):
+		return []int64{-4}
+	}
+	dropped := within(2*time.Second, func() { fake.Drop() })
+	close(release)
+	if !dropped {
+		return []int64{-8, 1}
+	}
+	if !within(2*time.Second, func() { fake.Reconnect() }) {
+		return []int64{-8, 2}
+	}
+	setNextID("602")
+	if !within(2*time.Second, func() { _ = cl.SendRequest(core16.NewDataTransferRequest("v2")) }) {
+		return []int64{-8, 3}
+	}
+	ok := waitFor(2*time.Second, clientWrote(fake, 602))
+	stopped := within(3*time.Second, cl.Stop)
+	if ok && stopped {
+		return []int64{1, 0}
+	}
+	return []int64{0, b2i(ok), b2i(stopped)}
+}
+
 func gatedEval(in []int64) []int64 {
 	switch in[0] {
 	case 7:
@@ -1373,6 +1429,8 @@ func gatedEval(in []int64) []int64 {
 		return gatedDisconnectKeepsOtherTimeout()
 	case 28:
 		return gatedTwoCompletionsWhilePumpBusy()
+	case 29:
+		return gatedDisconnectDuringTimeoutHandling()
 	}
 	return []int64{-1}
 }
